@@ -15,7 +15,7 @@ from vlib.wire import Wire, same_json
 PROP = 'C04'
 MANIFEST = dict(
     text="Program-quantified symbolic check of Method.bind / ViewMethod.bind / BaseValidator through the real dispatchers: every syntactically valid signature of <= 3 (quick) / <= 4 (thorough) parameters over "
-         "{positional-only, positional-or-keyword, *args, keyword-only, **kw} x defaults, x context {none, by name at each position, positional-first, view constructor} x {function, coroutine, view method}; "
+         "{positional-only, positional-or-keyword, *args, keyword-only, **kw} x defaults, x context {none, by name at each position, positional-first, view constructor; truthy and falsy context objects} x {function, coroutine, view method}; "
          "inputs: positional lists of length 0..5 with symbolic values and named mappings in which the PRESENCE of every candidate key (each parameter name, an unknown name, the context name) is a z3 boolean (all subsets explored). "
          "Oracle: a twin function with the same signature (minus the context) is called directly by Python; TypeError there <=> -32602 and the body did not run; otherwise the method saw exactly the twin's bound arguments plus the server-side context, and the result is returned unchanged.",
     ref='5 C04',
@@ -89,6 +89,10 @@ def obligations(tier):
                         continue
                     obs.append(dict(base, inp='list', ln=ln))
                 obs.append(dict(base, inp='named', _weight=8))
+                if cm != 'none' and (n <= 1 or tier != 'quick'):
+                    # the same with a FALSY context object ({}): it is still the context the method must receive
+                    obs.append(dict(base, inp='list', ln=min(n, 1), ctxv='falsy'))
+                    obs.append(dict(base, inp='named', ctxv='falsy', _weight=8))
     return obs
 
 
@@ -194,7 +198,7 @@ def h_bind(ob):
         wire = Wire(env)
         cls = pjrpc.server.AsyncDispatcher if is_async else pjrpc.server.Dispatcher
         d = cls(**wire.kwargs())
-        CTX = ['server-context']
+        CTX = {} if ob.get('ctxv') == 'falsy' else ['server-context']      # a falsy context object is still THE context
         if is_view:
             d.registry.view(ns['V'], context='c')
             method_name = 'meth'
@@ -261,7 +265,7 @@ def h_bind(ob):
                 raise Violation('args-differ', (src, wire_params, name))
         if is_view and view_ctx is not CTX:
             raise Violation('view-constructor-context', src)
-        want_result = [(['server-context'] if name == ctx_name else _plain(e)) for e, (name, k, dflt) in zip(exp, params)]
+        want_result = [(_plain(CTX) if name == ctx_name else _plain(e)) for e, (name, k, dflt) in zip(exp, params)]
         if not same_json(rdoc.get('result'), want_result):
             raise Violation('result-not-returned-unchanged', (src, rdoc, want_result))
         return ['ok', len(got)]
